@@ -265,6 +265,8 @@ func (node *Union) walkSubtree(visit Visit) error {
 		visit,
 		node.Left,
 		node.Right,
+		node.OrderBy,
+		node.Limit,
 	)
 }
 
@@ -312,6 +314,7 @@ func (node *Insert) walkSubtree(visit Visit) error {
 		node.Columns,
 		node.Rows,
 		node.OnDup,
+		node.Returning,
 	)
 }
 
@@ -336,9 +339,11 @@ func (node *Update) walkSubtree(visit Visit) error {
 		node.Comments,
 		node.TableExprs,
 		node.Exprs,
+		node.From,
 		node.Where,
 		node.OrderBy,
 		node.Limit,
+		node.Returning,
 	)
 }
 
@@ -365,11 +370,12 @@ func (node *Delete) walkSubtree(visit Visit) error {
 	return Walk(
 		visit,
 		node.Comments,
-		node.TableExprs,
+		node.Targets,
 		node.TableExprs,
 		node.Where,
 		node.OrderBy,
 		node.Limit,
+		node.Returning,
 	)
 }
 
@@ -880,7 +886,7 @@ func (node *Execute) Format(buf *TrackedBuffer) {
 }
 
 func (node *Execute) walkSubtree(visit Visit) error {
-	return Walk(visit, node.Using, node.PreparedStatementName)
+	return Walk(visit, node.Using, node.PreparedStatementName, node.Values)
 }
 
 // Format formats the node.
